@@ -27,15 +27,19 @@ def gen_program(rng, i, profile):
     val = [100]
     lines = [cfg]
     if profile == "invall":
-        # an inserting (and maintaining) thread against a thread that invalidates everything and reads
+        # an inserting (and maintaining) thread against a thread that invalidates everything and reads;
+        # ps = how densely explicit maintenance is sprinkled (0: writes stay pending as long as the cache lets them)
         k = 1
-        progs = [[f"I {k} 101"] + (["S"] if rng.random() < 0.7 else []) + ([f"G {k}"] if rng.random() < 0.6 else [])
-                 + (["S"] if rng.random() < 0.5 else []),
-                 [f"D {rng.choice([1, 1000, 600_000_000])}"] + ([f"G {k}"] if rng.random() < 0.4 else []) + ["A"]
-                 + (["S"] if rng.random() < 0.6 else []) + [f"G {k}"] + (["S", f"G {k}"] if rng.random() < 0.5 else [])
+        ps = rng.choice([0.0, 0.0, 0.3, 0.7])
+        S = lambda p=1.0: (["S"] if rng.random() < ps * p else [])
+        adv = lambda: [f"D {rng.choice([1, 1000, 600_000_000])}"]
+        progs = [(adv() if rng.random() < 0.3 else []) + [f"I {k} 101"] + S() + ([f"G {k}"] if rng.random() < 0.4 else [])
+                 + ([f"I {k} 102"] if rng.random() < 0.3 else []) + S(0.7),
+                 adv() + ([f"G {k}"] if rng.random() < 0.3 else []) + (adv() if rng.random() < 0.4 else []) + ["A"]
+                 + S(0.8) + [f"G {k}"] + (S() + [f"G {k}"] if rng.random() < 0.5 else [])
                  + ([f"C {k}"] if rng.random() < 0.3 else [])]
         if rng.random() < 0.3:
-            progs.append([f"G {k}", "S"])
+            progs.append([f"G {k}"] + S())
         for t, ops in enumerate(progs):
             lines.append(f"TH {t} " + " ; ".join(ops))
         return lines, len(progs)
@@ -263,6 +267,38 @@ def explore(pid, tier, seed, nprog, exhaustive_bound):
     return cases
 
 
+def fullqueue_cases(rng, n):
+    """C09: a thread is parked INSIDE a maintenance run it started through the housekeeper (flag held, logs
+    already drained) while another thread fills the bounded write queue to the brim and keeps inserting; the
+    first thread then finishes.  Every insert must still return: the blocked writer has to get the queue
+    drained itself once the flag is free.  Two phases: the parking position is read off the parked thread's
+    own event sequence in an unpreempted run."""
+    progs, nbs = [], {}
+    for i in range(n):
+        cap = rng.choice(["none", 1000, 3])
+        cfg = f"cfg kind=conc cap={cap} ttl=none tti=none weigher=none hasher=id budget=60000"
+        first = rng.choice(["G 1", "I 1 7", "I 1 7"])
+        nb = rng.choice([385, 386, 392, 420])
+        # (usually nothing follows on thread 0: a later operation of its own would drain the queue for the other thread)
+        lines = [cfg, f"TH 0 {first}" + (" ; G 1" if rng.random() < 0.25 else ""),
+                 "TH 1 " + " ; ".join(f"I {2 + j % 5} {1000 + j}" for j in range(nb))]
+        progs.append((f"fq{i}", lines))
+        nbs[f"fq{i}"] = nb
+    probe = C.run_impl([(nm + "_probe", ls + ["SCHED " + " ".join(["0"] * 120), "RUN"]) for nm, ls in progs], timeout=300)
+    cases = []
+    for nm, ls in progs:
+        run_ = parse_run(probe.get(nm + "_probe", []))
+        mine = [site for _, t, site in run_["events"] if t == 0]
+        inside = [j for j, site in enumerate(mine) if site in ("hk:acquired", "sync:locked", "sync:after_reads", "sync:after_writes",
+                                                               "sync:before_evict", "sync:before_publish", "sync:unlocked")]
+        if not inside:
+            continue
+        j = rng.choice(inside)
+        sched = ["0"] * j + ["1"] * (nbs[nm] * 9 + 400) + ["0"] * 200
+        cases.append((nm, ls + ["SCHED " + " ".join(sched), "RUN"]))
+    return cases
+
+
 def accept_traces(kind, traces):
     """Runs the extracted Coq acceptors (Conc/Cell.v, Conc/HK.v) over action traces.
     Returns {name: verdict string}.  Silently empty if the driver has no such mode yet."""
@@ -313,6 +349,11 @@ def run(pid, tier, seed, model_ok, replay, nprog=None):
                 stress.append((f"stressw{i}", [cfgl, f"RW threads={srng.choice([3, 4, 6])} keys={srng.choice([50, 500])} "
                                                      f"ops={srng.choice([5000, 20000])} writes=90 quiet=1 adv=600000000 tick=1000000000 seed={srng.randrange(10**6)}"]))
         cases += stress
+    n_fq = 0
+    if not replay and pid == "C09":
+        fq = fullqueue_cases(random.Random(seed * 13 + 9), 6 if tier == "quick" else 40)
+        n_fq = len(fq)
+        cases += fq
     impl = C.run_impl(cases, timeout=300)
     violations, disagreements = [], []
     burst_res = None
@@ -326,7 +367,8 @@ def run(pid, tier, seed, model_ok, replay, nprog=None):
         violations += burst_res["violations"]
         disagreements += burst_res["disagreements"]
     dist = {"runs": len(cases), "threads": {}, "steps_total": 0, "ops_total": 0, "gets_with_value": 0,
-            "preemptive_runs": 0, "livelocks": 0, "incomplete": 0}
+            "preemptive_runs": 0, "livelocks": 0, "incomplete": 0,
+            "full_write_queue_runs": n_fq}
     cell_traces, hk_traces = [], []
     programs = set()
     for name, lines in cases:
